@@ -49,7 +49,9 @@ def full_steps(M):
 
 
 def is_abs_step(M, t):
+    """Log index t is a project-wide absence step (index k stands for time k * unit_time)."""
+    tt = t * M.run.get("unit_time", 1)
     for a in M.run["abs"]:
-        if a == t:
+        if a == tt:
             return True
     return False
